@@ -33,19 +33,43 @@ def reframe(rows, part, meta_every=2):
 
 
 def grouped_with_metadata(integ, data):
-    """[(items of sink, metadata visible when the sink is handed over)]"""
+    """[(items of sink, metadata visible when the sink is handed over, metadata visible when the sink's FACTORY was called)]
+    -- "during whose consumption that frame's metadata is visible" starts when the sink for the frame is made."""
     var = contextvars.ContextVar("frame_metadata")
+    seen_by_factory = []
+
+    def note():
+        try:
+            seen_by_factory.append(dict(var.get()))
+        except LookupError:
+            seen_by_factory.append(None)
+
     if integ == "generic":
         from pyjelly.integrations.generic import parse as mod  # noqa: PLC0415
+
+        def sink_factory():
+            note()
+            return terms.generic_classes().GenericStatementSink()
+
         out = []
-        for sink in mod.parse_jelly_grouped(io.BytesIO(data), frame_metadata=var):
+        for sink in mod.parse_jelly_grouped(io.BytesIO(data), frame_metadata=var, sink_factory=sink_factory):
             items = [("ns", p, i._iri) for p, i in sink.namespaces] + [terms.item_from_generic(x) for x in sink]
-            out.append((items, dict(var.get())))
+            out.append((items, dict(var.get()), seen_by_factory[-1] if seen_by_factory else None))
         return out
     from pyjelly.integrations.rdflib import parse as mod  # noqa: PLC0415
+    from rdflib.graph import Dataset, Graph  # noqa: PLC0415
+
+    def graph_factory():
+        note()
+        return Graph()
+
+    def dataset_factory():
+        note()
+        return Dataset()
+
     out = []
-    for g in mod.parse_jelly_grouped(io.BytesIO(data), frame_metadata=var):
-        out.append((impl._items_of_rdflib_store(g), dict(var.get())))
+    for g in mod.parse_jelly_grouped(io.BytesIO(data), frame_metadata=var, graph_factory=graph_factory, dataset_factory=dataset_factory):
+        out.append((impl._items_of_rdflib_store(g), dict(var.get()), seen_by_factory[-1] if seen_by_factory else None))
     return out
 
 
@@ -77,7 +101,7 @@ def check_partition(run, key, rp, rows, den, part, integ):
         return 2
     counts = producer.denoting_per_frame(frames)
     pos = 0
-    for fi, (items, meta) in enumerate(grouped):
+    for fi, (items, meta, meta_f) in enumerate(grouped):
         w = den[pos:pos + counts[fi]]
         pos += counts[fi]
         if integ == "generic":
@@ -90,6 +114,10 @@ def check_partition(run, key, rp, rows, den, part, integ):
         wm = {k: bytes(v) for k, v in (frames[fi].get("meta") or {}).items()}
         if {k: bytes(v) for k, v in meta.items()} != wm:
             run.violation({"clause": "metadata", **key}, f"frame {fi} of partition {list(part)}: metadata visible {meta!r}, frame carries {wm!r}", rp)
+            break
+        if meta_f is not None and {k: bytes(v) for k, v in meta_f.items()} != wm:
+            run.violation({"clause": "metadata-at-sink-creation", **key},
+                          f"frame {fi} of partition {list(part)}: the sink factory saw metadata {meta_f!r}, the frame carries {wm!r}", rp)
             break
     return 2
 
